@@ -423,7 +423,7 @@ def new_ltf_plan(**args):
                 stage2 = True # Transition to stage 2 on the NEXT iteration
                 # Calculate alpha for the upcoming stage 2
                 pts_left = Jdes - j
-                if pts_left > 1:
+                if pts_left > 1 and dftlen_crossover > 0:
                     alpha = np.log(Lmin / dftlen_crossover) / (pts_left - 1)
                 dftlen = int(np.round(fs / fres_ideal)) # Use the ideal fres for this step
             elif (freslim * fres_ideal)**0.5 > fresmin:
